@@ -396,6 +396,92 @@ def doc_stream(ctx, res, n):
                     touch(cfg)
 
 
+def override_stream(ctx, res, n):
+    """a rejected assignment by dotted path that arrives through `cmdline_args_override`: a parsed namespace whose only applicable entry
+    (the others are `None` or on the ignore list) is a value its field refuses, at the root and at depth 1-3.  Afterwards the values at
+    all depths, the user-defined marks, the nested configuration objects and the typed list / dict objects are the ones from before,
+    and a section obtained before is still the live one.  With an accepted entry in front of the refused one, everything the
+    namespace did not name is as before and the objects are the same ones."""
+    import argparse
+    import cincoconfig as cc
+    rng = ctx.rng
+    tmp, keypath = P.setup(ctx)
+    for i in range(n):
+        s = cc.Schema()
+        s.mode = cc.StringField(default="prod", choices=["prod", "dev"])
+        s.count = cc.IntField(default=1, min=0, max=10)
+        s.http.port = cc.PortField(default=8080)
+        s.http.tls.level = cc.IntField(default=1, max=3)
+        s.http.tls.deep.flag = cc.BoolField(default=False)
+        s.http.hosts = cc.ListField(cc.StringField(), default=lambda: ["a"])
+        s.http.limits = cc.DictField(cc.StringField(), cc.IntField(), default=lambda: {"cpu": 2})
+        s.db.name = cc.StringField(default="main", min_len=2)
+        cfg = s()
+        if rng.random() < 0.7:
+            cfg.http.tls.level = 2
+        if rng.random() < 0.5:
+            cfg.db.name = "other"
+        bad_for = {"mode": ["staging", 5], "count": ["x", 11, -1, "1.5"], "http.port": ["not-a-number", 0, 70000], "http.tls.level": ["high", 4], "http.tls.deep.flag": ["maybe", 2],
+                   "db.name": ["x", 5], "http.hosts": [5, [1, 2]], "http.limits": [[1], {"k": "v"}], "nope": [1], "http.nope": [1], "http.tls": [5, "x"]}
+        good_for = {"mode": "dev", "count": "7", "db.name": "third", "http.port": "9000", "http.tls.level": 3}
+        key = rng.choice(sorted(bad_for))
+        bad = rng.choice(bad_for[key])
+        lead = rng.random() < 0.4
+        ns = {}
+        if lead:
+            gk = rng.choice(sorted(k for k in good_for if k != key))
+            ns[gk] = good_for[gk]
+        ns[key] = bad
+        for k in rng.sample(sorted(good_for), 2):
+            if k not in ns:
+                ns[k] = None if rng.random() < 0.5 else good_for[k]
+        ignore = [k for k in ns if k != key and ns[k] is not None and not (lead and k == next(iter(ns)))]
+        if len(ignore) == 1 and rng.random() < 0.5:
+            ignore = ignore[0]
+        def look():
+            objs = {"http": cfg.http, "tls": cfg.http.tls, "deep": cfg.http.tls.deep, "db": cfg.db, "hosts": cfg.http.hosts, "limits": cfg.http.limits}
+            marks = {k: cc.is_value_defined(cfg, k) for k in ("mode", "count", "http", "http.port", "http.tls", "http.tls.level", "http.tls.deep.flag", "http.hosts", "http.limits", "db", "db.name")}
+            return cfg.to_tree(), marks, objs
+        tree0, marks0, objs0 = look()
+        http = cfg.http
+        try:
+            cc.cmdline_args_override(cfg, argparse.Namespace(**ns), ignore=ignore)
+            raised = False
+        except Exception:  # noqa
+            raised = True
+        case = {"stream": "override", "namespace": {k: F.enc_val(v) for k, v in ns.items()}, "ignore": ignore, "refused_key": key, "accepted_in_front": lead}
+        res.case(stable(case) if raised else None, kind="override:" + ("rejected" if raised else "accepted") + (":after-accepted" if lead else ""))
+        if not raised:
+            continue
+        tree1, marks1, objs1 = look()
+        moved = sorted(k for k in objs0 if objs0[k] is not objs1[k])
+        if moved:
+            res.violate("C06:override-changed-state:identity", "after a rejected command-line override a nested configuration / typed container is a different object",
+                        dict(case, replaced=moved))
+            continue
+        http.port = 9191
+        if cfg.http.port != 9191:
+            res.violate("C06:override-changed-state:identity", "a section obtained before a rejected command-line override is no longer the live one", case)
+            continue
+        http.port = tree0["http"]["port"]
+        if not lead and (tree1 != tree0 or marks1 != marks0):
+            res.violate("C06:override-changed-state", "a rejected command-line override (its only applicable entry was refused) changed values or user-defined marks",
+                        dict(case, before=tree0, after=tree1, marks_before=marks0, marks_after=marks1))
+        elif lead:
+            gk = next(iter(ns))
+            def drop(t, dotted):
+                t = copy.deepcopy(t)
+                cur = t
+                parts = dotted.split(".")
+                for q in parts[:-1]:
+                    cur = cur[q]
+                cur.pop(parts[-1], None)
+                return t
+            if drop(tree1, gk) != drop(tree0, gk) or {k: v for k, v in marks1.items() if k != gk} != {k: v for k, v in marks0.items() if k != gk}:
+                res.violate("C06:override-changed-state", "a command-line override whose second entry was refused changed something other than its first entry",
+                            dict(case, before=tree0, after=tree1))
+
+
 def run(ctx, n_quick=200, n_thorough=6000):
     res = Result()
     P.run_stream(ctx, res, "C06", ctx.n(n_quick, n_thorough), oracle, gen_ops=gen_ops)
@@ -404,6 +490,7 @@ def run(ctx, n_quick=200, n_thorough=6000):
     guard(res, "C06", moved_item_stream, ctx, res, ctx.n(60, 2000))
     guard(res, "C06", validated_container_element_stream, ctx, res, ctx.n(20, 600))
     guard(res, "C06", doc_stream, ctx, res, ctx.n(3, 60))
+    guard(res, "C06", override_stream, ctx, res, ctx.n(150, 3000))
     return res
 
 
